@@ -8,7 +8,7 @@ package main
 //
 // hdesc  = <hash>,<number hex>,<uncleHash>,<txHash>,<receiptHash>,<withdrawalsHash|n>
 // H      = x (ssz decode of header-with-proof failed) | y (ssz ok, header rlp failed) | <hdesc>/<o|e|p>   (o/e/p = real header proof check)
-// B      = x | <uncleHash>,<txRoot>,<withdrawalsRoot|n>          (ground truth from DecodePortalBlockBodyBytes + CalcUncleHash/DeriveSha)
+// B      = xs|xt|xu|xw (container / a transaction / the uncles field / a withdrawal does not decode) | <uncleHash>,<txRoot>,<withdrawalsRoot|n>          (ground truth from DecodePortalBlockBodyBytes + CalcUncleHash/DeriveSha)
 // R      = x | <receiptRoot>                                      (DecodeReceipts + DeriveSha)
 // S      = e | <hdesc>@<header rlp>                                            (what the header source answers for key[1:])
 //
@@ -125,13 +125,17 @@ func c02proof(hv validation.HeaderValidator, h *types.Header, proof []byte) stri
 	return "o"
 }
 
+// Ground truth is computed WITHOUT the repository's decoding glue (DecodeBlockHeaderWithProof, DecodePortalBlockBodyBytes,
+// FromPortalBlockBodyShanghai, FromBlockBodyLegacy, DecodeReceipts, FromPortalReceipts are part of what C02 checks):
+// the SSZ containers are opened with their generated UnmarshalSSZ and every field is decoded on its own with the
+// go-ethereum decoder for that field.  A field that does not decode can never match a header: the whole item is "x".
 func c02H(hv validation.HeaderValidator, content []byte) string {
-	hwp, err := htypes.DecodeBlockHeaderWithProof(content)
-	if err != nil {
+	hwp := new(htypes.BlockHeaderWithProof)
+	if err := hwp.UnmarshalSSZ(content); err != nil {
 		return "x"
 	}
-	h, err := htypes.DecodeBlockHeader(hwp.Header)
-	if err != nil {
+	h := new(types.Header)
+	if err := rlp.DecodeBytes(hwp.Header, h); err != nil {
 		return "y"
 	}
 	return c02hdesc(h) + "/" + c02proof(hv, h, hwp.Proof)
@@ -148,29 +152,78 @@ func c02bodyRoots(body *types.Body) string {
 	return fmt.Sprintf("%s,%s,%s", hx(u[:]), hx(t[:]), w)
 }
 
+// c02fields decodes the three fields of a body one by one; which = "" when all decode, else xt / xu / xw
+func c02fields(txs [][]byte, uncles []byte, wds [][]byte, shanghai bool) (*types.Body, string) {
+	body := &types.Body{Transactions: []*types.Transaction{}, Uncles: []*types.Header{}}
+	for _, t := range txs {
+		tx := new(types.Transaction)
+		if err := tx.UnmarshalBinary(t); err != nil {
+			return nil, "xt"
+		}
+		body.Transactions = append(body.Transactions, tx)
+	}
+	if err := rlp.DecodeBytes(uncles, &body.Uncles); err != nil {
+		return nil, "xu"
+	}
+	if shanghai {
+		body.Withdrawals = []*types.Withdrawal{}
+		for _, w := range wds {
+			wd := new(types.Withdrawal)
+			if err := rlp.DecodeBytes(w, wd); err != nil {
+				return nil, "xw"
+			}
+			body.Withdrawals = append(body.Withdrawals, wd)
+		}
+	}
+	return body, ""
+}
+
+// c02B: the Shanghai container is tried first, then the legacy one (the documented dispatch of the portal body types)
 func c02B(content []byte) string {
-	var body *types.Body
-	var err error
-	if p, _ := guard(func() { body, err = history.DecodePortalBlockBodyBytes(content) }); p {
-		return "x"
-	}
-	if err != nil || body == nil {
-		return "x"
-	}
-	return c02bodyRoots(body)
+	out := "xs"
+	guard(func() {
+		sh := new(history.PortalBlockBodyShanghai)
+		if err := sh.UnmarshalSSZ(content); err == nil {
+			body, bad := c02fields(sh.Transactions, sh.Uncles, sh.Withdrawals, true)
+			if body == nil {
+				out = bad
+				return
+			}
+			out = c02bodyRoots(body)
+			return
+		}
+		lg := new(history.BlockBodyLegacy)
+		if err := lg.UnmarshalSSZ(content); err == nil {
+			body, bad := c02fields(lg.Transactions, lg.Uncles, nil, false)
+			if body == nil {
+				out = bad
+				return
+			}
+			out = c02bodyRoots(body)
+		}
+	})
+	return out
 }
 
 func c02R(content []byte) string {
-	var rs []*types.Receipt
-	var err error
-	if p, _ := guard(func() { rs, err = history.DecodeReceipts(content) }); p {
-		return "x"
-	}
-	if err != nil {
-		return "x"
-	}
-	r := types.DeriveSha(types.Receipts(rs), trie.NewStackTrie(nil))
-	return hx(r[:])
+	out := "x"
+	guard(func() {
+		pr := new(history.PortalReceipts)
+		if err := pr.UnmarshalSSZ(content); err != nil {
+			return
+		}
+		rs := make([]*types.Receipt, 0, len(pr.Receipts))
+		for _, rb := range pr.Receipts {
+			rc := new(types.Receipt)
+			if err := rc.UnmarshalBinary(rb); err != nil {
+				return
+			}
+			rs = append(rs, rc)
+		}
+		r := types.DeriveSha(types.Receipts(rs), trie.NewStackTrie(nil))
+		out = hx(r[:])
+	})
+	return out
 }
 
 // ---------------------------------------------------------------- blocks
@@ -600,6 +653,166 @@ func (e *c02Env) byteMutations(b *c02Block, t byte, k int) {
 	for _, sel := range []byte{0, 1, 2, 3, 4, 5, 0xff} {
 		if sel != t {
 			e.vc("selector", append([]byte{sel}, key[1:]...), content, b.header)
+		}
+	}
+}
+
+// key-shape mutations with genuine content and the honest header: a key that is not exactly selector ++ 32 bytes
+// (selector ++ 8 bytes for 0x03) must be rejected, wherever the genuine hash / number sits inside it
+func (e *c02Env) keyShapes(b *c02Block, t byte, thorough bool) {
+	r := e.c.Rng
+	key, content := b.key(t), b.content(t)
+	if content == nil {
+		return
+	}
+	sel, kh := key[:1], key[1:]
+	cat := func(parts ...[]byte) []byte {
+		var o []byte
+		for _, p := range parts {
+			o = append(o, p...)
+		}
+		return o
+	}
+	ks := []int{1, 2, 8, 31, 32, 33, 40}
+	if len(content) < 3000 || thorough {
+		ks = ks[:0]
+		for k := 1; k <= 40; k++ {
+			ks = append(ks, k)
+		}
+	}
+	for _, k := range ks {
+		e.vc("key_left_extended", cat(sel, r.Bytes(k), kh), content, b.header) // the LAST bytes are the genuine hash / number
+	}
+	e.vc("key_left_extended_zero", cat(sel, []byte{0}, kh), content, b.header)
+	e.vc("key_left_extended_zero", cat(sel, make([]byte, 32), kh), content, b.header)
+	for _, k := range []int{1, 2, 8, 32} {
+		e.vc("key_right_extended", cat(sel, kh, r.Bytes(k)), content, b.header) // the FIRST bytes are genuine
+	}
+	e.vc("key_right_extended_zero", cat(sel, kh, []byte{0}), content, b.header)
+	e.vc("key_left_truncated", cat(sel, kh[1:]), content, b.header)
+	e.vc("key_right_truncated", cat(sel, kh[:len(kh)-1]), content, b.header)
+	e.vc("key_doubled", cat(sel, kh, kh), content, b.header)
+	e.vc("key_selector_doubled", cat(sel, sel, kh), content, b.header)
+	if t != 3 {
+		// a 32-byte hash with the selector byte missing / the hash of the other by-hash selectors at the wrong length
+		e.vc("key_left_truncated", cat(sel, kh[8:]), content, b.header)
+	} else {
+		e.vc("key_number_padded_to_32", cat(sel, kh, make([]byte, 24)), content, b.header)
+		e.vc("key_number_padded_to_32", cat(sel, make([]byte, 24), kh), content, b.header)
+	}
+}
+
+// raw-field mutations of a body: the SSZ container is well formed and two of the three fields are genuine, the third is
+// undecodable, not of the right RLP shape, or decodable but different
+func (e *c02Env) rawBodyFields(b *c02Block) {
+	if b.body == nil {
+		return
+	}
+	r := e.c.Rng
+	key := b.key(1)
+	var txs, wds [][]byte
+	for _, tx := range b.body.Transactions {
+		x, err := tx.MarshalBinary()
+		if err != nil {
+			panic(err)
+		}
+		txs = append(txs, x)
+	}
+	for _, w := range b.body.Withdrawals {
+		x, err := rlp.EncodeToBytes(w)
+		if err != nil {
+			panic(err)
+		}
+		wds = append(wds, x)
+	}
+	if txs == nil {
+		txs = [][]byte{}
+	}
+	if wds == nil {
+		wds = [][]byte{}
+	}
+	uncles, err := rlp.EncodeToBytes(b.body.Uncles)
+	if err != nil {
+		panic(err)
+	}
+	otherUncles, _ := rlp.EncodeToBytes([]*types.Header{c02rndHeader(r, b.number)})
+	enc := func(shanghai bool, txs [][]byte, uncles []byte, wds [][]byte) []byte {
+		var out []byte
+		var err error
+		if shanghai {
+			out, err = (&history.PortalBlockBodyShanghai{Transactions: txs, Uncles: uncles, Withdrawals: wds}).MarshalSSZ()
+		} else {
+			out, err = (&history.BlockBodyLegacy{Transactions: txs, Uncles: uncles}).MarshalSSZ()
+		}
+		if err != nil {
+			panic(err)
+		}
+		return out
+	}
+	sh := b.header.WithdrawalsHash != nil
+	tag := fmt.Sprintf("_sh=%v_wd%d", sh, min(len(wds), 1))
+	// uncles field
+	for i, u := range [][]byte{{}, {0x01}, {0x80}, {0xde, 0xad, 0xbe, 0xef}, {0xc0, 0x00}, {0x83, 1, 2, 3}, {0xc1, 0x80}, {0xc2, 0xc0, 0xc0}, otherUncles,
+		append(append([]byte{}, uncles...), 0xc0), uncles[:len(uncles)-1], r.Bytes(1 + r.Intn(30))} {
+		e.vc(fmt.Sprintf("raw_uncles_%d%s", i, tag), key, enc(sh, txs, u, wds), b.header)
+	}
+	// one transaction
+	for i, x := range [][]byte{{}, {0x01}, {0xc0}, {0xde, 0xad, 0xbe, 0xef}, r.Bytes(1 + r.Intn(60))} {
+		e.vc(fmt.Sprintf("raw_tx_appended_%d%s", i, tag), key, enc(sh, append(append([][]byte{}, txs...), x), uncles, wds), b.header)
+		if len(txs) > 0 {
+			m := append([][]byte{}, txs...)
+			m[r.Intn(len(m))] = x
+			e.vc(fmt.Sprintf("raw_tx_replaced_%d%s", i, tag), key, enc(sh, m, uncles, wds), b.header)
+		}
+	}
+	if len(txs) > 0 && len(txs[0]) > 1 {
+		m := append([][]byte{}, txs...)
+		m[0] = m[0][:len(m[0])-1]
+		e.vc("raw_tx_truncated"+tag, key, enc(sh, m, uncles, wds), b.header)
+		m = append([][]byte{}, txs...)
+		m[0] = append(append([]byte{}, m[0]...), 0)
+		e.vc("raw_tx_extended"+tag, key, enc(sh, m, uncles, wds), b.header)
+	}
+	// one withdrawal
+	if sh {
+		for i, x := range [][]byte{{}, {0x01}, {0xc0}, {0xde, 0xad, 0xbe, 0xef}, r.Bytes(1 + r.Intn(30))} {
+			if len(wds) < 16 {
+				e.vc(fmt.Sprintf("raw_wd_appended_%d%s", i, tag), key, enc(true, txs, uncles, append(append([][]byte{}, wds...), x)), b.header)
+			}
+			if len(wds) > 0 {
+				m := append([][]byte{}, wds...)
+				m[r.Intn(len(m))] = x
+				e.vc(fmt.Sprintf("raw_wd_replaced_%d%s", i, tag), key, enc(true, txs, uncles, m), b.header)
+				// junk in one withdrawal AND junk uncles: an error of one field must not hide the other's
+				e.vc(fmt.Sprintf("raw_wd_and_uncles_%d%s", i, tag), key, enc(true, txs, []byte{0x01}, m), b.header)
+			}
+		}
+		if len(wds) > 0 {
+			// junk uncles with the junk withdrawal first / last and a good one after / before it
+			good := wds[0]
+			e.vc("raw_uncles_junk_wd_order"+tag, key, enc(true, txs, []byte{0xde, 0xad}, [][]byte{good, good}), b.header)
+		}
+	}
+	// receipts: one undecodable / different receipt among genuine ones
+	if b.receipts != nil && len(b.receipts) > 0 {
+		var rs [][]byte
+		for _, rc := range b.receipts {
+			x, err := rc.MarshalBinary()
+			if err != nil {
+				panic(err)
+			}
+			rs = append(rs, x)
+		}
+		for i, x := range [][]byte{{}, {0x01}, {0xc0}, {0xde, 0xad, 0xbe, 0xef}} {
+			m := append([][]byte{}, rs...)
+			m[r.Intn(len(m))] = x
+			out, err := (&history.PortalReceipts{Receipts: m}).MarshalSSZ()
+			if err != nil {
+				panic(err)
+			}
+			e.vc(fmt.Sprintf("raw_receipt_replaced_%d", i), b.key(2), out, b.header)
+			out, _ = (&history.PortalReceipts{Receipts: append(append([][]byte{}, rs...), x)}).MarshalSSZ()
+			e.vc(fmt.Sprintf("raw_receipt_appended_%d", i), b.key(2), out, b.header)
 		}
 	}
 }
@@ -1178,6 +1391,34 @@ func runC02(c *Ctx) {
 	// 3. field-level mutations
 	for _, b := range all {
 		e.fieldMutations(b)
+	}
+	// 3b. raw fields inside a well-formed container; 3c. key shapes
+	for _, b := range all {
+		if len(b.bodyC)+len(b.rcptC) < 60000 || thorough {
+			e.rawBodyFields(b)
+		}
+	}
+	for _, b := range all {
+		for _, t := range []byte{0, 3, 1, 2} {
+			e.keyShapes(b, t, thorough)
+		}
+	}
+	// a block whose hash starts with a zero byte: the 32-byte key selector ++ hash[1:] is not its key
+	{
+		z := c02synth(c, "zerohash", true, 1, 0, 1)
+		for i := 0; z.hash[0] != 0 && i < 100000; i++ {
+			z.header.Extra = binary.BigEndian.AppendUint32(nil, uint32(i))
+			z.hash = z.header.Hash().Bytes()
+		}
+		z.hdrC = c02encodeHeader(z.header, nil)
+		if z.hash[0] == 0 {
+			c.Count("zero_leading_hash_block")
+			e.genuine(z)
+			for _, t := range []byte{0, 1, 2} {
+				e.vc("key_zero_leading_byte_dropped", append([]byte{t}, z.hash[1:]...), z.content(t), z.header)
+				e.vc("key_zero_leading_byte_doubled", append([]byte{t, 0}, z.hash...), z.content(t), z.header)
+			}
+		}
 	}
 	// 4. cross pairing: every ordered pair of small blocks, a sample of the large ones
 	for _, a := range all {
